@@ -8,7 +8,7 @@ CLAIMED['C02'] = dict(
     text='Proof (per function, modular): every loader function and read_inline/crossline/zslice/subvolume/volume/subplane/get_trace return exactly '
          'the slice of the spec-defined volume V they denote, for all cube shapes and arguments, per valid (rate, blockshape) setting '
          '(quick: representative settings; thorough: all 401). Also under contract: both diagonal families, coordinate lookup (coord_to_index) and reads by line number, subvolume[a:b:c, ...] on ascending axes, accessor construction. '
-         'z-slice and trace by sample time/depth (exact-real axis), tools.cube. xarray adapter: not under contract.',
+         'z-slice and trace by sample time/depth (exact-real axis), tools.cube, raw indexing of the xarray backend (integer keys, bounded and stepped slices).',
     note='AX-ZFP-DEC, AX-NP-INDEX, AX-FILE, AX-POOL, AX-LRU assumed; reader object state: SgzReader.__init__ is under contract for the file-handle route (ReaderInit: state = mk_reader state for conforming files); ENGINE pyvc + z3/cvc5 trusted')
 CLAIMED['C07'] = dict(
     text='Proof: ghost read log of every loader function / read method under contract equals exactly the ranges the property allows '
